@@ -85,7 +85,7 @@ def run_job(job, gendir, workroot, vacuity=False, trace=True):
     if any('ignoring' in m and ('forall' in m or 'exists' in m) for m in msgs):
         res['reason'] = 'quantifier ignored by back end'; return res
     obl = []; failed = []
-    nobody = [r.get('property') for r in results if '.no-body.' in (r.get('property') or '') and r.get('status') != 'SUCCESS']
+    nobody = [r.get('property') for r in results if ('.no-body.' in (r.get('property') or '') or 'undefined function should be unreachable' in (r.get('description') or '')) and r.get('status') != 'SUCCESS']
     if nobody and not vacuity:
         res['reason'] = 'sliced code calls functions that are outside the slice (needs contract; not a violation): ' + ', '.join(sorted(set(nobody))[:6]); return res
     for r in results:
